@@ -95,6 +95,18 @@ def c08_3(ctx, r):
                 "the node results file can be deleted although the rows were not (successfully) appended to the consolidated file: the rows are lost",
                 "No row is lost")
         r.check(dominated_by(ctx, fn, d, read, ALL_KINDS), "the read dominates the delete", key_of(fn, "delete before read"), fn.loc(d.stmt), "the node file is deleted before it was read")
+    # the delete must not be reachable along an exception edge leaving the append callback
+    dele_ids = {d.id for d in dele}
+    for f in fcall:
+        seen, stack = set(), [d for d, k, _ in f.succ if k == "exc"]
+        while stack:
+            x = stack.pop()
+            if x.id in seen:
+                continue
+            seen.add(x.id)
+            stack.extend(d for d, k, _ in x.succ)
+        r.check(not (seen & dele_ids), "a failed append cannot reach the delete (no finally/handler deletes)", key_of(fn, "delete reachable after failed append"), fn.loc(f.stmt),
+                "if appending to the consolidated file raises (quota, I/O error), the node results file is still deleted: the rows are lost", "No row is lost")
     for f in fcall:
         r.check(dominated_by(ctx, fn, f, read, ALL_KINDS), "the read dominates the append", key_of(fn, "append before read"), fn.loc(f.stmt), "rows are appended before they were read")
         # an exception in the callback must not be swallowed on the way to the delete
